@@ -309,7 +309,7 @@ def case(c):
             # (d) the reported figures describe that very field
             if info['exit'] == 0:
                 ae = info['abs_error']
-                if not abs(ae - r) <= 1e-3*max(r, 1e-3*tol*snorm):
+                if not abs(ae - r) <= 1e-3*max(r, 1e-3*tol*snorm) + 1e-12*snorm:
                     V('reported-error-not-of-returned-field',
                       f"exit 0: abs_error {ae:.6e} but residual of the "
                       f"returned field is {r:.6e} "
@@ -442,7 +442,8 @@ def krylov_case(c):
         if not r <= tol*snorm*(1 + SLACK):
             V('success-but-residual-above-tol',
               f'script {script}: exit 0, residual {r:.3e} > {tol*snorm:.3e}')
-        if not abs(info['abs_error'] - r) <= 1e-3*max(r, 1e-3*tol*snorm):
+        if not abs(info['abs_error'] - r) <= (1e-3*max(r, 1e-3*tol*snorm) +
+                                              1e-12*snorm):
             V('reported-error-not-of-returned-field',
               f"script {script}: exit 0, abs_error {info['abs_error']:.6e} "
               f"but the returned field has residual {r:.6e}",
